@@ -337,6 +337,34 @@ def toast_tile_get_coords(tile):
     )
 
 
+def _toast_level0_get_coords(coordsys):
+    """
+    Get the coordinates of the pixel centers of the single level-0 TOAST tile.
+
+    The level-0 tile has no :class:`Tile` representation, so its pixel grid is
+    assembled from the four level-1 tiles, each of which contributes one
+    128x128 quadrant.
+    """
+    lons = np.empty((256, 256))
+    lats = np.empty((256, 256))
+
+    for tile in _create_level1_tiles(coordsys):
+        qlons, qlats = subsample(
+            tile.corners[0],
+            tile.corners[1],
+            tile.corners[2],
+            tile.corners[3],
+            128,
+            tile.increasing,
+        )
+        iy = 128 * tile.pos.y
+        ix = 128 * tile.pos.x
+        lons[iy : iy + 128, ix : ix + 128] = qlons
+        lats[iy : iy + 128, ix : ix + 128] = qlats
+
+    return lons, lats
+
+
 def toast_pixel_for_point(depth, lat, lon, coordsys=ToastCoordinateSystem.ASTRONOMICAL):
     """
     Identify the pixel within a TOAST tile at a given depth that contains the
@@ -670,7 +698,7 @@ def sample_layer(
     from .pyramid import Pyramid
 
     p = Pyramid.new_toast(depth, coordsys=coordsys)
-    proc = ToastSampler(pio, sampler, True, format=format)
+    proc = ToastSampler(pio, sampler, True, format=format, coordsys=coordsys)
     p.visit_leaves(proc.visit_callback, parallel=parallel, cli_progress=cli_progress)
 
 
@@ -715,7 +743,7 @@ def sample_layer_filtered(
     from .pyramid import Pyramid
 
     p = Pyramid.new_toast_filtered(depth, tile_filter, coordsys=coordsys)
-    proc = ToastSampler(pio, sampler, False, format=format)
+    proc = ToastSampler(pio, sampler, False, format=format, coordsys=coordsys)
     p.visit_leaves(proc.visit_callback, parallel=parallel, cli_progress=cli_progress)
 
 
@@ -737,6 +765,9 @@ class ToastSampler(object):
     format : optional :class:`str`
         If provided, override the default data storage format of *pio* with the
         named format, one of the values in ``toasty.image.SUPPORTED_FORMATS``.
+    coordsys : optional :class:`ToastCoordinateSystem`
+        The TOAST coordinate system of the pyramid. This is only needed to
+        sample the level-0 tile, which is not described by a :class:`Tile`.
 
     Notes
     -----
@@ -744,15 +775,27 @@ class ToastSampler(object):
     the :meth:`toasty.pyramid.Pyramid.visit_leaves` function. This class
     preserves some state between calls to help speed up processing."""
 
-    def __init__(self, pio, sampler, clobber, format=None):
+    def __init__(
+        self,
+        pio,
+        sampler,
+        clobber,
+        format=None,
+        coordsys=ToastCoordinateSystem.ASTRONOMICAL,
+    ):
         self._pio = pio
         self._sampler = sampler
         self._clobber = clobber
         self._format = format
+        self._coordsys = coordsys
         self._invert_into_tiles = pio.get_default_vertical_parity_sign() == 1
 
     def visit_callback(self, pos, tile):
-        lon, lat = toast_tile_get_coords(tile)
+        if tile is None:
+            # The depth-0 pyramid: its one leaf is the level-0 tile.
+            lon, lat = _toast_level0_get_coords(self._coordsys)
+        else:
+            lon, lat = toast_tile_get_coords(tile)
         sampled_data = self._sampler(lon, lat)
 
         if self._invert_into_tiles:
